@@ -97,4 +97,161 @@ theorem cname_read (buf : Bytes) (tbl : CTable) (pos : Nat) (ls : List Bytes) (r
     rw [name_unfold, hb, scanRaw_wire_ptr' ls1 t rest hok1 ht]
     simp [htp, hn2, hsplit, ptrBytes]
 
+/-! ### a whole sequence of names written by the reference encoder -/
+
+theorem lookup_append_eq {α β} [BEq α] [LawfulBEq α] (l : List (α × β)) (k : α) (v : β) (h : l.lookup k = none) :
+    (l ++ [(k, v)]).lookup k = some v := by
+  induction l with
+  | nil => simp only [List.nil_append, List.lookup, beq_self_eq_true]
+  | cons e l ih =>
+    obtain ⟨a, b⟩ := e
+    simp only [List.lookup] at h
+    simp only [List.cons_append, List.lookup]
+    cases hka : (k == a) with
+    | true => simp [hka] at h
+    | false => simp only [hka] at h ⊢; exact ih h
+
+/-- what a scan from `t` sees when `t` is a place where the encoder registered the suffix `s` of a name that started
+    at `start` -/
+def SuffixRead (buf : Bytes) (start : Nat) (s : List Bytes) (t : Nat) : Prop :=
+  ∃ raws n ptr, scanRaw (buf.drop t) = some (raws, n, ptr) ∧
+    (match ptr with
+     | none => raws = s
+     | some t' => t' < start ∧ ∃ ls2 n2, DnsRef.name buf t' = some (ls2, n2) ∧ s = raws ++ ls2)
+
+theorem SuffixRead.name {buf : Bytes} {start t : Nat} {s : List Bytes} (h : SuffixRead buf start s t) (hst : start ≤ t) :
+    ∃ n, DnsRef.name buf t = some (s, n) := by
+  obtain ⟨raws, n, ptr, hs, hm⟩ := h
+  cases ptr with
+  | none => simp only at hm; subst hm; exact ⟨n, by rw [name_unfold, hs]⟩
+  | some t' =>
+    obtain ⟨ht, ls2, n2, hn2, rfl⟩ := hm
+    exact ⟨n, by rw [name_unfold, hs]; simp [show t' < t by omega, hn2]⟩
+
+theorem cname_scan (buf : Bytes) : ∀ (ls : List Bytes) (tbl : CTable) (pos start : Nat) (rest : Bytes), start ≤ pos →
+    buf.drop pos = (cname tbl pos ls).1 ++ rest → LabelsOk ls →
+    (∀ s t, tbl.lookup s = some t → s.length ≤ ls.length → t < 16384 ∧ t < start ∧ ∃ n, DnsRef.name buf t = some (s, n)) →
+    SuffixRead buf start ls pos ∧
+    (∀ s t, (cname tbl pos ls).2.lookup s = some t → tbl.lookup s = some t ∨
+      (t < 16384 ∧ pos ≤ t ∧ t < pos + (cname tbl pos ls).1.length ∧ SuffixRead buf start s t)) := by
+  intro ls
+  induction ls with
+  | nil =>
+    intro tbl pos start rest _ hb _ _
+    refine ⟨⟨[], 1, none, ?_, rfl⟩, fun s t h => Or.inl h⟩
+    simp only [cname, List.cons_append, List.nil_append] at hb
+    rw [hb, scanRaw_cons]; simp
+  | cons l ls ih =>
+    intro tbl pos start rest hsp hb hok hH
+    cases hl : tbl.lookup (l :: ls) with
+    | some t =>
+      obtain ⟨ht, hts, n2, hn2⟩ := hH (l :: ls) t hl (Nat.le_refl _)
+      simp only [cname, hl] at hb ⊢
+      refine ⟨⟨[], 2, some t, ?_, hts, l :: ls, n2, hn2, by simp⟩, fun s t' h => Or.inl h⟩
+      have := scanRaw_wire_ptr' [] t rest (by simp [LabelsOk]) ht
+      simpa [wire, hb] using this
+    | none =>
+      obtain ⟨hne, hlen⟩ := hok l (by simp)
+      have hpos : 0 < l.length := List.length_pos_iff.mpr hne
+      have htn : (UInt8.ofNat l.length).toNat = l.length := toNat_ofNat_lt (by omega)
+      -- the recursive call
+      let tbl1 : CTable := if pos < 16384 then tbl ++ [(l :: ls, pos)] else tbl
+      have hout : (cname tbl pos (l :: ls)).1 = UInt8.ofNat l.length :: l ++ (cname tbl1 (pos + 1 + l.length) ls).1 := by
+        simp [cname, hl, tbl1]
+      have htab : (cname tbl pos (l :: ls)).2 = (cname tbl1 (pos + 1 + l.length) ls).2 := by
+        simp [cname, hl, tbl1]
+      rw [hout] at hb
+      have hb1 : buf.drop pos = (UInt8.ofNat l.length :: l) ++ ((cname tbl1 (pos + 1 + l.length) ls).1 ++ rest) := by
+        simpa using hb
+      have hb2 : buf.drop (pos + 1 + l.length) = (cname tbl1 (pos + 1 + l.length) ls).1 ++ rest := by
+        have := drop_of_drop_append hb1
+        have e : pos + (UInt8.ofNat l.length :: l).length = pos + 1 + l.length := by simp; omega
+        rw [e] at this; exact this
+      have hlk1 : ∀ s t, tbl1.lookup s = some t → s ≠ l :: ls → tbl.lookup s = some t := by
+        intro s t h hne'
+        simp only [tbl1] at h
+        split at h
+        · rwa [lookup_append_ne _ _ _ _ hne'] at h
+        · exact h
+      have hH1 : ∀ s t, tbl1.lookup s = some t → s.length ≤ ls.length →
+          t < 16384 ∧ t < start ∧ ∃ n, DnsRef.name buf t = some (s, n) := by
+        intro s t h hle
+        have hne' : s ≠ l :: ls := by
+          intro he; rw [he] at hle; simp only [List.length_cons] at hle; omega
+        exact hH s t (hlk1 s t h hne') (by simp; omega)
+      obtain ⟨⟨raws, n, ptr, hs, hm⟩, htbl⟩ := ih tbl1 (pos + 1 + l.length) start rest (by omega) hb2
+        (fun x hx => hok x (by simp [hx])) hH1
+      -- the scan from `pos`
+      have hscan : scanRaw (buf.drop pos) = some (l :: raws, 1 + l.length + n, ptr) := by
+        rw [hb1]
+        simp only [List.cons_append]
+        rw [scanRaw_cons, htn]
+        have h1 : ¬ 192 ≤ l.length := by omega
+        have h2 : ¬ 64 ≤ l.length := by omega
+        have h3 : ¬ l.length = 0 := by omega
+        have h4 : ¬ (l ++ ((cname tbl1 (pos + 1 + l.length) ls).1 ++ rest)).length < l.length := by simp
+        rw [if_neg h1, if_neg h2, if_neg h3, if_neg h4, List.drop_left, List.take_left, ← hb2, hs]
+      have hread : SuffixRead buf start (l :: ls) pos := by
+        refine ⟨l :: raws, _, ptr, hscan, ?_⟩
+        cases ptr with
+        | none => simp only at hm ⊢; rw [hm]
+        | some t' =>
+          obtain ⟨ht', ls2, n2, hn2, rfl⟩ := hm
+          exact ⟨ht', ls2, n2, hn2, by simp⟩
+      refine ⟨hread, ?_⟩
+      intro s t h
+      rw [htab] at h
+      rw [hout]
+      have hlen' : (UInt8.ofNat l.length :: l ++ (cname tbl1 (pos + 1 + l.length) ls).1).length =
+          1 + l.length + (cname tbl1 (pos + 1 + l.length) ls).1.length := by simp; omega
+      rcases htbl s t h with h1 | ⟨h1, h2, h3, h4⟩
+      · by_cases hse : s = l :: ls
+        · subst hse
+          by_cases hp : pos < 16384
+          · have : tbl1.lookup (l :: ls) = some pos := by
+              simp only [tbl1, hp, if_true]; exact lookup_append_eq _ _ _ hl
+            rw [this] at h1; cases h1
+            exact Or.inr ⟨hp, Nat.le_refl _, by rw [hlen']; omega, hread⟩
+          · have : tbl1 = tbl := by simp [tbl1, hp]
+            rw [this, hl] at h1; cases h1
+        · exact Or.inl (hlk1 s t h1 hse)
+      · exact Or.inr ⟨h1, by omega, by rw [hlen']; omega, h4⟩
+
+/-- every registered suffix is where the table says, below the write position -/
+def TblInv (buf : Bytes) (tbl : CTable) (pos : Nat) : Prop :=
+  ∀ s t, tbl.lookup s = some t → t < 16384 ∧ t < pos ∧ ∃ n, DnsRef.name buf t = some (s, n)
+
+/-- offsets at which `cnames` writes its names -/
+def cnameOffsets (tbl : CTable) (pos : Nat) : List (List Bytes) → List Nat
+  | [] => []
+  | n :: ns => let r := cname tbl pos n; pos :: cnameOffsets r.2 (pos + r.1.length) ns
+
+theorem cname_out_pos (tbl : CTable) (pos : Nat) (ls : List Bytes) : 0 < (cname tbl pos ls).1.length := by
+  cases ls with
+  | nil => simp [cname]
+  | cons l ls =>
+    simp only [cname]
+    split <;> simp [ptrBytes]
+
+theorem cnames_read (buf : Bytes) : ∀ (names : List (List Bytes)) (tbl : CTable) (pos : Nat) (rest : Bytes),
+    buf.drop pos = cnames tbl pos names ++ rest → (∀ n ∈ names, LabelsOk n) → TblInv buf tbl pos →
+    Rel2 (fun off n => ∃ k, DnsRef.name buf off = some (n, k)) (cnameOffsets tbl pos names) names := by
+  intro names
+  induction names with
+  | nil => intro tbl pos rest _ _ _; exact Rel2.nil
+  | cons nm names ih =>
+    intro tbl pos rest hb hok hinv
+    simp only [cnames, List.append_assoc] at hb
+    obtain ⟨hread, htbl⟩ := cname_scan buf nm tbl pos pos _ (Nat.le_refl _) hb (hok nm (by simp))
+      (fun s t h _ => hinv s t h)
+    have hb2 := drop_of_drop_append hb
+    have hinv2 : TblInv buf (cname tbl pos nm).2 (pos + (cname tbl pos nm).1.length) := by
+      intro s t h
+      rcases htbl s t h with h1 | ⟨h1, h2, h3, h4⟩
+      · obtain ⟨a, b, c⟩ := hinv s t h1
+        exact ⟨a, by have := cname_out_pos tbl pos nm; omega, c⟩
+      · exact ⟨h1, h3, h4.name h2⟩
+    simp only [cnameOffsets]
+    exact Rel2.cons (hread.name (Nat.le_refl _)) (ih _ _ rest hb2 (fun n hn => hok n (by simp [hn])) hinv2)
+
 end MitmVerif.C26
